@@ -35,7 +35,7 @@ def jobs(tier):
             J.append(j)
     for j in C16.jobs("quick"):
         if re.match(r"(add_calibration|delete_calibration|query_calibration)\.alloc(1|8)$", j.name) or \
-                re.match(r"(delete_parameter|make_parameter)\.alloc3", j.name):
+                re.match(r"(delete_parameter|make_parameter)\.alloc(3|8_live4)", j.name):
             j.name = "vnacal." + j.name
             j.canary = False
             j.imported = True
@@ -72,6 +72,12 @@ def jobs(tier):
                              "solver outcome per frequency and all values symbolic" % (t, r, c, "unknown" if unk else "known",
                                                                                      "present" if prior else "absent", "on" if merr else "off"),
                        timeout=300, cbmc_flags=["--slice-formula"]))
+    import C01
+    for j in C01.jobs(tier):
+        if j.name == "param_hash.deleted_handle":       # deleted handles refused by vnacal_new_add_*, referrers keep working
+            j.name = "vnacal_new." + j.name
+            j.imported = True
+            J.append(j)
     return J
 
 
